@@ -8,6 +8,9 @@
 //!   `cc <ee hex> <inter>`                        verify_client_cert
 //!   `sg <s|c> <msg hex> <cert hex> <scheme> <sig hex>`         verify_tls13_signature
 //!   `e2e <right|wrong> <n>`                      two real endpoints on loopback
+//!   `e2e resume <n>`                             a dialer with a tiny TLS ticket cache first has sessions with B and
+//!                                                with A (tickets arrive, the cache wraps), then dials B's id at A's
+//!                                                address: session resumption must not bypass authentication
 use std::time::Duration;
 
 use iroh::verif_hooks::tls as hk;
@@ -154,6 +157,93 @@ impl C01 {
     }
 }
 
+impl C01 {
+    fn e2e_resume(&self, n: u64) -> Exec {
+        let mut ex = Exec::default();
+        let res: Result<String, String> = self.rt.block_on(async {
+            async fn server(sk: SecretKey) -> Result<Endpoint, String> {
+                let ep = Endpoint::builder(presets::Minimal)
+                    .secret_key(sk)
+                    .alpns(vec![ALPN.to_vec()])
+                    .relay_mode(RelayMode::Disabled)
+                    .bind()
+                    .await
+                    .map_err(|e| format!("bind: {e:?}"))?;
+                let srv = ep.clone();
+                tokio::spawn(async move {
+                    while let Some(inc) = srv.accept().await {
+                        tokio::spawn(async move {
+                            let Ok(conn) = inc.await else { return };
+                            if let Ok((mut send, mut recv)) = conn.accept_bi().await {
+                                if let Ok(data) = recv.read_to_end(1000).await {
+                                    let _ = send.write_all(&data).await;
+                                    let _ = send.finish();
+                                }
+                            }
+                            conn.closed().await;
+                        });
+                    }
+                });
+                Ok(ep)
+            }
+            async fn dial_echo(dialer: &Endpoint, addr: EndpointAddr) -> Result<PublicKey, String> {
+                let conn = tokio::time::timeout(Duration::from_secs(6), dialer.connect(addr, ALPN))
+                    .await
+                    .map_err(|_| "timeout".to_string())?
+                    .map_err(|e| format!("connect: {e:?}"))?;
+                let rid = conn.remote_id();
+                let (mut send, mut recv) = conn.open_bi().await.map_err(|e| format!("{e:?}"))?;
+                send.write_all(b"hello").await.map_err(|e| format!("{e:?}"))?;
+                send.finish().map_err(|e| format!("{e:?}"))?;
+                let _ = tokio::time::timeout(Duration::from_secs(4), recv.read_to_end(1000)).await;
+                // let the session tickets the server sends after the handshake arrive
+                tokio::time::sleep(Duration::from_millis(120)).await;
+                conn.close(0u32.into(), b"thx");
+                Ok(rid)
+            }
+            let a = server(secret(400 + n)).await?;
+            let b = server(secret(500 + n)).await?;
+            let dialer = Endpoint::builder(presets::Minimal)
+                .secret_key(secret(600 + n))
+                .relay_mode(RelayMode::Disabled)
+                .max_tls_tickets(2)
+                .bind()
+                .await
+                .map_err(|e| format!("bind: {e:?}"))?;
+            let addr_of = |ep: &Endpoint, id: PublicKey| EndpointAddr::from_parts(id, ep.addr().addrs.iter().cloned().collect::<Vec<TransportAddr>>());
+            // honest sessions first: B, then A twice (the ticket cache of 2 wraps)
+            let r1 = dial_echo(&dialer, addr_of(&b, b.id())).await.map_err(|e| format!("infra honest dial B: {e}"))?;
+            let r2 = dial_echo(&dialer, addr_of(&a, a.id())).await.map_err(|e| format!("infra honest dial A: {e}"))?;
+            let r3 = dial_echo(&dialer, addr_of(&a, a.id())).await.map_err(|e| format!("infra honest dial A2: {e}"))?;
+            if r1 != b.id() || r2 != a.id() || r3 != a.id() {
+                return Ok("honest-remote-id-mismatch".to_string());
+            }
+            // now B's id at A's address
+            let out = match tokio::time::timeout(Duration::from_secs(6), dialer.connect(addr_of(&a, b.id()), ALPN)).await {
+                Err(_) => "refused".to_string(),
+                Ok(Err(_)) => "refused".to_string(),
+                Ok(Ok(conn)) => format!("established-with-holder-of-{}", if conn.remote_id() == a.id() { "other-key" } else if conn.remote_id() == b.id() { "dialed-key?" } else { "unknown" }),
+            };
+            dialer.close().await;
+            a.close().await;
+            b.close().await;
+            Ok(out)
+        });
+        match res {
+            Err(e) => Exec { infra: Some(e), ..Default::default() },
+            Ok(out) => {
+                if out != "refused" {
+                    ex.violation("wrong-key-connected-after-resumption", format!("after earlier sessions, a dial of B's id that reached A ended: {out}"));
+                }
+                ex.out = out;
+                ex.nontrivial = true;
+                ex.tags.push("e2e-resume".into());
+                ex
+            }
+        }
+    }
+}
+
 impl Prop for C01 {
     fn id(&self) -> &'static str {
         "C01"
@@ -164,6 +254,9 @@ impl Prop for C01 {
         for i in 0..e2e {
             out.push(format!("e2e right {i}"));
             out.push(format!("e2e wrong {i}"));
+        }
+        for i in 0..(if tier == Tier::Thorough { 6 } else { 1 }) {
+            out.push(format!("e2e resume {i}"));
         }
         while out.len() < n {
             let k = rng.below(6);
@@ -248,6 +341,7 @@ impl Prop for C01 {
     fn execute(&mut self, payload: &str) -> Exec {
         let t: Vec<&str> = payload.split_whitespace().collect();
         match t[0] {
+            "e2e" if t[1] == "resume" => self.e2e_resume(t[2].parse().unwrap()),
             "e2e" => self.e2e(t[1] == "right", t[2].parse().unwrap()),
             "ne" => {
                 let key = unhex(t[1]).unwrap();
